@@ -367,6 +367,10 @@ def run(ctx, eng):
                'a header block that was encoded but not emitted leaves the '
                'encoder ahead of the bytes: the next block no longer decodes '
                'at an independent decoder')
+    cm.include(ctx, eng, 'C23', {('ORD.gate', 'send_headers')},
+               'the priority fields a send_headers call is given are on the '
+               'HEADERS frame it emits, whichever header block of the stream '
+               'that is')
     cm.include(ctx, eng, 'C21', {'ARITH.slice'},
                'what data_to_send hands out, in whatever portions, is the '
                'buffer: every appended byte exactly once and in order')
